@@ -25,11 +25,11 @@ type State struct {
 	guard *Term
 	cells map[*ssa.Alloc]*Term
 	heap  map[string]*Term
-	split []*Term // guards of the states merged most recently (case-split hint)
+	splits [][]*Term // guards of the states merged at each join since the last cut point (case-split hints)
 }
 
 func (s *State) clone() *State {
-	n := &State{guard: s.guard, cells: make(map[*ssa.Alloc]*Term, len(s.cells)), heap: make(map[string]*Term, len(s.heap)), split: s.split}
+	n := &State{guard: s.guard, cells: make(map[*ssa.Alloc]*Term, len(s.cells)), heap: make(map[string]*Term, len(s.heap)), splits: s.splits}
 	for k, v := range s.cells {
 		n.cells[k] = v
 	}
@@ -65,9 +65,10 @@ type loopInfo struct {
 }
 
 type retInfo struct {
-	st   *State
-	vals []*Term
-	pos  token.Pos
+	st      *State
+	vals    []*Term
+	pos     token.Pos
+	nassume int // assumptions visible at the return
 }
 
 type FnExec struct {
@@ -125,6 +126,11 @@ func (fx *FnExec) pos(p token.Pos) string {
 
 // oblig records an obligation under the current state's guard.
 func (fx *FnExec) oblig(st *State, kind, what string, p token.Pos, goal *Term) {
+	fx.obligN(st, kind, what, p, goal, -1)
+}
+
+// obligN records an obligation that may only use the first nassume assumptions (-1: all so far).
+func (fx *FnExec) obligN(st *State, kind, what string, p token.Pos, goal *Term, nassume int) {
 	if fx.nobl == nil {
 		fx.nobl = map[string]int{}
 	}
@@ -137,16 +143,38 @@ func (fx *FnExec) oblig(st *State, kind, what string, p token.Pos, goal *Term) {
 	if n := fx.nobl[base]; n > 1 {
 		name = fmt.Sprintf("%s#%d", base, n)
 	}
-	if (kind == "inv-pres" || kind == "ensures") && len(st.split) > 1 && !goal.IsTrue() {
-		// case split along the most recent join: one obligation per merged path
-		for i, g := range st.split {
-			o := &Obligation{Name: fmt.Sprintf("%s/case%d", name, i), Func: fx.fn.String(), Beh: fx.behName, Kind: kind, Pos: fx.pos(p), Guard: And(st.guard, g), Goal: goal}
-			fx.c.AddObl(o)
+	if (kind == "inv-pres" || kind == "ensures") && len(st.splits) > 0 && !goal.IsTrue() {
+		// case split along the joins since the last cut point: one obligation per
+		// combination of merged paths (infeasible combinations are trivially discharged)
+		combos := [][]*Term{nil}
+		for k := len(st.splits) - 1; k >= 0; k-- {
+			if len(combos)*len(st.splits[k]) > 24 {
+				break
+			}
+			var next [][]*Term
+			for _, c := range combos {
+				for _, g := range st.splits[k] {
+					next = append(next, append(append([]*Term{}, c...), g))
+				}
+			}
+			combos = next
 		}
-		return
+		if len(combos) > 1 {
+			for i, c := range combos {
+				o := &Obligation{Name: fmt.Sprintf("%s/case%d", name, i), Func: fx.fn.String(), Beh: fx.behName, Kind: kind, Pos: fx.pos(p), Guard: And(append([]*Term{st.guard}, c...)...), Goal: goal}
+				fx.c.AddObl(o)
+				if nassume >= 0 {
+					o.nassume = nassume
+				}
+			}
+			return
+		}
 	}
 	o := &Obligation{Name: name, Func: fx.fn.String(), Beh: fx.behName, Kind: kind, Pos: fx.pos(p), Guard: st.guard, Goal: goal}
 	fx.c.AddObl(o)
+	if nassume >= 0 {
+		o.nassume = nassume
+	}
 }
 
 // ---------------------------------------------------------------------------
@@ -527,7 +555,7 @@ func (fx *FnExec) strConst(s string) *Term { return strConst(fx.c, s) }
 
 func strConst(c *Ctx, s string) *Term {
 	if len(s) == 0 {
-		return MkStr(zeroArr, IntLit(0), IntLit(0))
+		return MkStr(zeroArr, IntLit(0))
 	}
 	name := fmt.Sprintf("strc_%x", s)
 	if len(name) > 60 {
@@ -548,7 +576,7 @@ func strConst(c *Ctx, s string) *Term {
 		}
 		constStrings[name] = s
 	}
-	return MkStr(arr, IntLit(0), IntLit(int64(len(s))))
+	return MkStr(arr, IntLit(int64(len(s))))
 }
 
 var constStrings = map[string]string{}
@@ -558,20 +586,24 @@ func constStringOf(t *Term) (string, bool) {
 	if t.Op != "mkstr" {
 		return "", false
 	}
-	if t.Args[0] == zeroArr || t.Args[0].Op == zeroArr.Op {
-		if t.Args[2].lit != nil && t.Args[2].lit.Sign() == 0 {
-			return "", true
-		}
-	}
-	s, ok := constStrings[t.Args[0].Op]
-	if !ok || t.Args[1].lit == nil || t.Args[2].lit == nil {
+	arr, ln := t.Args[0], t.Args[1]
+	if ln.lit == nil {
 		return "", false
 	}
-	off, ln := int(t.Args[1].lit.Int64()), int(t.Args[2].lit.Int64())
-	if off < 0 || off+ln > len(s) {
+	n := int(ln.lit.Int64())
+	if n == 0 {
+		return "", true
+	}
+	off := 0
+	if arr.Op == "shl" && arr.Args[1].lit != nil {
+		off = int(arr.Args[1].lit.Int64())
+		arr = arr.Args[0]
+	}
+	s, ok := constStrings[arr.Op]
+	if !ok || off < 0 || off+n > len(s) {
 		return "", false
 	}
-	return s[off : off+ln], true
+	return s[off : off+n], true
 }
 
 // ---------------------------------------------------------------------------
@@ -859,9 +891,22 @@ func (fx *FnExec) mergeStates(ins []*State) *State {
 		guards = append(guards, s.guard)
 	}
 	st := &State{guard: fx.c.Name("g", Or(guards...)), cells: map[*ssa.Alloc]*Term{}, heap: map[string]*Term{}}
-	if len(guards) <= 4 {
-		st.split = guards
+	// common history of the merged states, then this join
+	var common [][]*Term
+	for k := 0; ; k++ {
+		ok := true
+		for _, s := range ins {
+			if k >= len(s.splits) || (k < len(ins[0].splits) && &s.splits[k][0] != &ins[0].splits[k][0]) {
+				ok = false
+				break
+			}
+		}
+		if !ok {
+			break
+		}
+		common = append(common, ins[0].splits[k])
 	}
+	st.splits = append(append([][]*Term{}, common...), guards)
 	// cells present in all predecessors
 	for a := range ins[0].cells {
 		all := true
@@ -878,7 +923,10 @@ func (fx *FnExec) mergeStates(ins []*State) *State {
 		for i := len(ins) - 2; i >= 0; i-- {
 			v = Ite(ins[i].guard, ins[i].cells[a], v)
 		}
-		st.cells[a] = fx.c.Name("m_"+a.Comment, v)
+		if v.Op == "ite" {
+			v = fx.c.Name("m_"+a.Comment, v)
+		}
+		st.cells[a] = v
 	}
 	hn := map[string]Sort{}
 	for _, s := range ins {
@@ -896,7 +944,10 @@ func (fx *FnExec) mergeStates(ins []*State) *State {
 		for i := len(ins) - 2; i >= 0; i-- {
 			v = Ite(ins[i].guard, fx.heapGet(ins[i], k, hn[k]), v)
 		}
-		st.heap[k] = fx.c.Name("mh_"+k, v)
+		if v.Op == "ite" {
+			v = fx.c.Name("mh_"+k, v)
+		}
+		st.heap[k] = v
 	}
 	return st
 }
@@ -952,13 +1003,18 @@ func (fx *FnExec) setOut(from, to *ssa.BasicBlock, st *State) {
 func (fx *FnExec) loopHead(li *loopInfo, st *State) {
 	spec := fx.beh.Loops[li.ordinal]
 	li.spec = spec
+	st.splits = nil
 	if spec == nil {
 		fx.fail("loop %d (%s) has no invariant for behaviour %q", li.ordinal, fx.pos(li.head.Instrs[0].Pos()), fx.behName)
 	}
 	// 1. invariant holds on entry
 	env := fx.specEnvAt(st, li.head)
+	var prevE []*Term
 	for i, inv := range spec.Invariants {
-		fx.oblig(st, "inv-entry", fmt.Sprintf("loop%d.%d", li.ordinal, i), li.head.Instrs[0].Pos(), env.boolExpr(inv.Expr))
+		// clauses are proved in order; earlier clauses may be used for later ones
+		t := env.boolExpr(inv.Expr)
+		fx.oblig(st, "inv-entry", fmt.Sprintf("loop%d.%d", li.ordinal, i), li.head.Instrs[0].Pos(), Implies(And(prevE...), t))
+		prevE = append(prevE, t)
 	}
 	// 2. havoc
 	ms := fx.loopModSet(li)
@@ -1086,8 +1142,11 @@ func (fx *FnExec) loopInvariantRef(st *State, li *loopInfo, ms *modSet, v ssa.Va
 
 func (fx *FnExec) backEdge(li *loopInfo, st *State, p token.Pos) {
 	env := fx.specEnvAt(st, li.head)
+	var prev []*Term
 	for i, inv := range li.spec.Invariants {
-		fx.oblig(st, "inv-pres", fmt.Sprintf("loop%d.%d", li.ordinal, i), li.head.Instrs[0].Pos(), env.boolExpr(inv.Expr))
+		t := env.boolExpr(inv.Expr)
+		fx.oblig(st, "inv-pres", fmt.Sprintf("loop%d.%d", li.ordinal, i), li.head.Instrs[0].Pos(), Implies(And(prev...), t))
+		prev = append(prev, t)
 	}
 	if li.variant != nil {
 		nv := env.expr(li.spec.Decreases.Expr).t
@@ -1107,7 +1166,7 @@ func (fx *FnExec) typeInv(v *Term, t types.Type, alloc *Term) *Term {
 	switch u := t.Underlying().(type) {
 	case *types.Basic:
 		if u.Info()&types.IsString != 0 {
-			return And(Ge(StrLen(v), IntLit(0)), Le(StrLen(v), maxInt), Ge(StrOff(v), IntLit(0)), fx.bytesInRange(StrArr(v)))
+			return And(Ge(StrLen(v), IntLit(0)), Le(StrLen(v), maxInt), fx.bytesInRange(StrArr(v)))
 		}
 	case *types.Slice:
 		c := And(Ge(SlcLen(v), IntLit(0)), Le(SlcCap(v), maxInt), Ge(SlcOff(v), IntLit(0)), Le(SlcLen(v), SlcCap(v)), Lt(SlcBase(v), alloc), Ge(SlcBase(v), IntLit(0)),
@@ -1234,7 +1293,7 @@ func (fx *FnExec) execInstr(b *ssa.BasicBlock, st *State, ins ssa.Instruction) b
 		for _, r := range x.Results {
 			vs = append(vs, fx.val(st, r))
 		}
-		fx.rets = append(fx.rets, retInfo{st: st, vals: vs, pos: x.Pos()})
+		fx.rets = append(fx.rets, retInfo{st: st, vals: vs, pos: x.Pos(), nassume: len(fx.c.assumes)})
 		return true
 	case *ssa.Panic:
 		fx.doPanic(st, x)
@@ -1355,7 +1414,7 @@ func (fx *FnExec) doSlice(st *State, x *ssa.Slice) {
 			hi = StrLen(v)
 		}
 		fx.oblig(st, "bounds", "strslice", x.Pos(), And(Le(IntLit(0), lo), Le(lo, hi), Le(hi, StrLen(v))))
-		fx.vals[x] = MkStr(StrArr(v), Add(StrOff(v), lo), Sub(hi, lo))
+		fx.vals[x] = MkStr(Shl(StrArr(v), lo), Sub(hi, lo))
 	case *types.Slice:
 		if x.High != nil {
 			hi = fx.val(st, x.High)
@@ -1651,7 +1710,7 @@ func declStrFuns(c *Ctx) {
 	a, b := Var("a", SStr), Var("b", SStr)
 	k, j := Var("k", SInt), Var("j", SInt)
 	at := func(s, i *Term) *Term {
-		return App("select", SInt, App("sarr", SArrI, s), App("+", SInt, App("soff", SInt, s), i))
+		return App("select", SInt, App("sarr", SArrI, s), i)
 	}
 	la, lb := App("slen", SInt, a), App("slen", SInt, b)
 	eq := And(Eq(la, lb), Forall([]*Term{k}, Implies(And(Le(IntLit(0), k), Lt(k, la)), Eq(at(a, k), at(b, k)))))
@@ -1720,5 +1779,5 @@ func (fx *FnExec) strConcat(st *State, a, b *Term) *Term {
 			fx.c.defs = append(fx.c.defs, Eq(App("select", SInt, arr, Add(la, IntLit(int64(i)))), IntLit(int64(sb[i]))))
 		}
 	}
-	return MkStr(arr, IntLit(0), Add(la, lb))
+	return MkStr(arr, Add(la, lb))
 }
